@@ -89,7 +89,7 @@ PLANS = {
                 mc=[dict(model="MC_Parse", quick="MC_Parse_c17.cfg", thorough="MC_Parse_c17.cfg"),
                     dict(model="MC_Fmt", quick="MC_Fmt_c17.cfg", thorough="MC_Fmt_c17.cfg")]),
     "C18": dict(mc=[dict(model="MC_BigNat", quick="MC_BigNat_quick.cfg", thorough="MC_BigNat_thorough.cfg"),
-                    dict(model="MC_Mech", quick="MC_Mech_quick.cfg", thorough="MC_Mech_thorough.cfg", workers=6)],
+                    dict(model="MC_Mech", quick="MC_Mech_quick.cfg", thorough="MC_Mech_thorough.cfg")],
                 mcgen=[dict(model="MC_Arith", quick="MC_Arith_quick.cfg", thorough="MC_Arith_thorough.cfg")], drive=True),
     "C20": dict(configs=dict(quick=C20_CONFIGS[:4], thorough=C20_CONFIGS), drive=False, shard=2500,
                 cfg_mcgen=[dict(model="MC_ExpMech", template="MC_ExpMech.cfg.tmpl", max_precision=16,
